@@ -556,6 +556,10 @@ func (w *World) Origins(v ssa.Value, opt *OriginOpts) []ssa.Value {
 				// load
 				switch a := x.X.(type) {
 				case *ssa.Alloc:
+					if ls := lastStoreBefore(x, a); ls != nil {
+						walk(ls.Val)
+						return
+					}
 					st := w.storesTo(a)
 					if len(st) == 0 {
 						add(v)
